@@ -224,7 +224,7 @@ pub fn run<F: Flav>(rep: &mut Report, max_n: usize, max_e: usize, random: u64, s
         let prios: Vec<i32> = (0..n).map(|_| rng.below(2000) as i32 - 1000).collect();
         rep.count("random_graphs");
         rep.count(&format!("random_family.{}", fam));
-        eval_roundtrip::<F>(&prios, &edges, 3, rng, rep);
+        eval_roundtrip::<F>(&prios, &edges, 5, rng, rep);
     }
 }
 
@@ -334,7 +334,115 @@ typed_roundtrip!(typed_sync_digraph, sync_digraph, "sync_digraph", true);
 typed_roundtrip!(typed_ungraph, ungraph, "ungraph", false);
 typed_roundtrip!(typed_sync_ungraph, sync_ungraph, "sync_ungraph", false);
 
+// Second instantiation: a key whose Display form is lossy (different keys print alike), nested node values,
+// edge values with floats whose equality is not bit equality (NaN, -0.0) and extreme integers.
+#[derive(Clone, Debug, PartialEq, Eq, Hash, PartialOrd, Ord)]
+pub struct LossyKey(pub u32);
+impl std::fmt::Display for LossyKey {
+    fn fmt(&self, f: &mut std::fmt::Formatter) -> std::fmt::Result {
+        write!(f, "k{}", self.0 / 10)
+    }
+}
+impl serde::Serialize for LossyKey {
+    fn serialize<S: serde::Serializer>(&self, s: S) -> Result<S::Ok, S::Error> {
+        self.0.serialize(s)
+    }
+}
+impl<'de> serde::Deserialize<'de> for LossyKey {
+    fn deserialize<D: serde::Deserializer<'de>>(d: D) -> Result<Self, D::Error> {
+        Ok(LossyKey(<u32 as serde::Deserialize>::deserialize(d)?))
+    }
+}
+type T2N = Vec<Option<i64>>;
+type T2E = (String, f64, i64);
+type Dump2 = Vec<(u32, T2N, Vec<(u32, String, u64, i64)>)>;
+const FLOATS: [f64; 7] = [0.0, -0.0, 1.5, f64::MAX, f64::MIN_POSITIVE, -1e300, 0.1];
+
+macro_rules! typed_roundtrip2 {
+    ($fname:ident, $m:ident, $label:expr, $directed:expr) => {
+        pub fn $fname(rng: &mut Rng, rep: &mut Report, cases: u64) {
+            use gdsl::$m::{Edge, Graph, Node};
+            let dump = |g: &Graph<LossyKey, T2N, T2E>| -> Dump2 {
+                let mut d: Dump2 = vec![];
+                for (k, n) in g.iter() {
+                    let mut l: Vec<(u32, String, u64, i64)> = vec![];
+                    for Edge(_, v, e) in n {
+                        l.push((v.key().0, e.0.clone(), e.1.to_bits(), e.2));
+                    }
+                    if !$directed {
+                        l.sort();
+                    }
+                    d.push((k.0, n.value().clone(), l));
+                }
+                d.sort();
+                d
+            };
+            for ci in 0..cases {
+                let nk = 2 + rng.below(9);
+                let mut g: Graph<LossyKey, T2N, T2E> = Graph::new();
+                let mut nodes: Vec<Node<LossyKey, T2N, T2E>> = vec![];
+                for i in 0..nk {
+                    // keys 0..nk: several of them print as the same "k0"
+                    let val: T2N = (0..rng.below(4)).map(|j| if j % 2 == 0 { Some(if rng.chance(1, 5) { i64::MIN } else { rng.below(1000) as i64 - 500 }) } else { None }).collect();
+                    let n = Node::new(LossyKey(i as u32), val);
+                    g.insert(n.clone());
+                    nodes.push(n);
+                }
+                for j in 0..rng.below(3 * nk + 1) {
+                    let a = rng.below(nk);
+                    let b = rng.below(nk);
+                    nodes[a].connect(&nodes[b], (format!("e{}", j), FLOATS[rng.below(FLOATS.len())], if rng.chance(1, 6) { i64::MAX } else { j as i64 }));
+                }
+                let before = dump(&g);
+                for fmt in ["json", "cbor"] {
+                    rep.count("evaluations");
+                    rep.count("typed2_roundtrips");
+                    rep.distinct(fnv_str(&format!("typed2|{}|{}|{:?}", $label, fmt, before)));
+                    let r = catch(|| -> Result<Dump2, String> {
+                        let g2: Graph<LossyKey, T2N, T2E> = if fmt == "json" {
+                            let s = serde_json::to_string(&g).map_err(|e| e.to_string())?;
+                            serde_json::from_str(&s).map_err(|e| e.to_string())?
+                        } else {
+                            let b = serde_cbor::to_vec(&g).map_err(|e| e.to_string())?;
+                            serde_cbor::from_slice(&b).map_err(|e| e.to_string())?
+                        };
+                        Ok(dump(&g2))
+                    });
+                    let msg = match r {
+                        Err(p) => Some(format!("panicked: {}", p)),
+                        Ok(Err(e)) => Some(format!("round trip failed: {}", e)),
+                        Ok(Ok(after)) => {
+                            if after != before {
+                                Some(format!("graph changed: before {:?} after {:?}", before, after))
+                            } else {
+                                None
+                            }
+                        }
+                    };
+                    if let Some(m) = msg {
+                        let cls: String = m.chars().filter(|c| !c.is_ascii_digit()).take(40).collect();
+                        rep.violation(
+                            "C12",
+                            format!("{}|typed2 {}|{}", $label, fmt, cls),
+                            format!("[{}] Graph<LossyKey (keys whose Display collide), Vec<Option<i64>>, (String, f64, i64)> case {}: {}", $label, ci, m.chars().take(600).collect::<String>()),
+                            json!({"kind":"serde_typed","prop":"C12","flavour":$label,"format":fmt}),
+                        );
+                    }
+                }
+            }
+        }
+    };
+}
+typed_roundtrip2!(typed2_digraph, digraph, "digraph", true);
+typed_roundtrip2!(typed2_sync_digraph, sync_digraph, "sync_digraph", true);
+typed_roundtrip2!(typed2_ungraph, ungraph, "ungraph", false);
+typed_roundtrip2!(typed2_sync_ungraph, sync_ungraph, "sync_ungraph", false);
+
 pub fn run_typed(rng: &mut Rng, rep: &mut Report, cases: u64) {
+    typed2_digraph(rng, rep, cases);
+    typed2_sync_digraph(rng, rep, cases);
+    typed2_ungraph(rng, rep, cases);
+    typed2_sync_ungraph(rng, rep, cases);
     typed_digraph(rng, rep, cases);
     typed_sync_digraph(rng, rep, cases);
     typed_ungraph(rng, rep, cases);
